@@ -206,6 +206,14 @@ func (p *Plugin) ValidateObservation(
 		return fmt.Errorf("validate message keys: %w", err)
 	}
 
+	fChain, err := p.homeChain.GetFChain()
+	if err != nil {
+		return fmt.Errorf("unable to get FChain: %w", err)
+	}
+	if err := validateObservedChains(fChain, decodedObservation); err != nil {
+		return fmt.Errorf("validate observed chains: %w", err)
+	}
+
 	if p.discovery != nil {
 		discoveryObs := plugincommon.AttributedObservation[dt.Observation]{
 			OracleID:    ao.Observer,
